@@ -8,18 +8,43 @@ UNIT = dict(
     default_file="limiter",
     verus_flags=["--no-erasure-check"],
     rules=[("R1",), ("R2",), ("R5",)],
-    extra_params=["clk", "tr"],
+    extra_params=["clk", "tr", "gh"],
     fns={
         "FixedWindowState::new": dict(),
         "FixedWindowState::refresh": dict(),
         "FixedWindowState::try_acquire": dict(rules=[
             ("inject", r"self\.available_permits -= 1;", "after", ADMIT),
         ]),
+        "SlidingLogState::new": dict(),
+        "SlidingCounterState::new": dict(),
         "SlidingLogState::try_acquire": dict(rules=[
             ("sub", "R11-refpat", r"Some\(&timestamp\) = self\.request_log\.front\(\)", "Some(timestamp) = vx_copied(self.request_log.front())", 1),
             ("sub", "R11-refpat", r"Some\(&oldest\) = self\.request_log\.front\(\)", "Some(oldest) = vx_copied(self.request_log.front())", 1),
             ("sub", "R10-checked-add", r"oldest\s*\.checked_add\(self\.window_duration\)\s*\.map\(\|expiry\| expiry\.saturating_duration_since\(now\)\)\s*\.unwrap_or\(Duration::ZERO\)",
              "(match oldest.checked_add(self.window_duration) { Some(expiry) => expiry.saturating_duration_since(now), None => Duration::ZERO })", 1),
+            ("inject", r"if self\.request_log\.len\(\) < self\.limit_for_period", "before", """proof {
+                let w = self.window_duration.nanos as nat; let n = gh.adm.len() as int; let k0 = old(self).request_log@.len() as int; let kept = self.request_log@; let d = k0 - kept.len();
+                lemma_live_suffix(old(self).request_log@, now.t as nat, w);
+                assert(times(kept) =~= gh.adm.subrange(n - kept.len(), n)) by {
+                    assert forall|i: int| 0 <= i < kept.len() implies times(kept)[i] == gh.adm.subrange(n - kept.len(), n)[i] by {
+                        assert(kept[i] == old(self).request_log@[d + i]);
+                        assert(times(old(self).request_log@)[d + i] == gh.adm.subrange(n - k0, n)[d + i]);
+                    }
+                }
+                assert forall|j: int| 0 <= j < n - kept.len() implies now.t >= #[trigger] gh.adm[j] && now.t - gh.adm[j] >= w by {
+                    if j >= n - k0 { assert(gh.adm[j] == gh.adm.subrange(n - k0, n)[j - (n - k0)]); assert(times(old(self).request_log@)[j - (n - k0)] == old(self).request_log@[j - (n - k0)].t); }
+                }
+            }""", 1),
+            ("inject", r"self\.request_log\.push_back\(now\);", "before", """proof {
+                let w = self.window_duration.nanos as nat; let n = gh.adm.len() as int; let kept = self.request_log@;
+                lemma_admit(gh.adm, kept.len() as nat, now.t as nat, w, self.limit_for_period as nat);
+                gh.adm = gh.adm.push(now.t as nat);
+                assert(times(kept.push(now)) =~= gh.adm.subrange(n + 1 - (kept.len() + 1), n + 1)) by {
+                    assert forall|i: int| 0 <= i < kept.len() + 1 implies times(kept.push(now))[i] == gh.adm.subrange(n - kept.len(), n + 1)[i] by {
+                        if i < kept.len() { assert(times(kept)[i] == gh.adm.subrange(n - kept.len(), n)[i]); }
+                    }
+                }
+            }"""),
             ("inject", r"self\.request_log\.push_back\(now\);", "after", ADMIT),
             ("loops", {0: """invariant
                     live_log(self.request_log@, now.t as nat, self.window_duration.nanos as nat) == live_log(old(self).request_log@, now.t as nat, old(self).window_duration.nanos as nat),
@@ -44,18 +69,19 @@ UNIT = dict(
             ("sub", "R14-estimate", r"self\.estimate_wait_time\(elapsed_ratio\)", "vx_estimate_wait_time(self.previous_count, self.current_count, self.limit_for_period, self.bucket_duration, elapsed)", 1),
             ("inject", r"self\.current_count \+= 1;", "after", ADMIT),
         ]),
-        "RateLimiterStateInner::try_acquire": dict(rules=[("addarg", ["try_acquire"], CT, 3)]),
+        "RateLimiterStateInner::try_acquire": dict(rules=[("addarg", ["try_acquire"], CT, 3),
+            ("sub", "R6-ghost", r"(Self::SlidingLog\(state\) => state\.try_acquire\(clk, Tracked\(tr\))\)", r"\1, Tracked(gh))", 1)]),
         "SharedRateLimiter::acquire": dict(rules=[
-            ("sub", "R8-lock", r"self\.state\.lock\(\)\.unwrap\(\)", "vx_lock(&self.state, clk)", 2),
+            ("sub", "R8-lock", r"self\.state\.lock\(\)\.unwrap\(\)", "vx_lock(&self.state, clk, Tracked(gh))", 2),
             ("R10r", -1),
             ("R3",),
-            ("addarg", ["try_acquire"], CT, 2),
+            ("addarg", ["try_acquire"], CT + ", Tracked(gh)", 2),
         ]),
         "RateLimiter::clone@Clone": dict(file="lib"),
         "RateLimiter::poll_ready@Service": dict(file="lib", rules=[("R10p", "RateLimiterServiceError::Inner")]),
         "RateLimiter::call@Service": dict(file="lib", rules=[
             ("R4",),
-            ("sub", "R3-acquire", r"limiter\.acquire\(\)\.await", "limiter.acquire(clk, Tracked(tr))", 1),
+            ("sub", "R3-acquire", r"limiter\.acquire\(\)\.await", "limiter.acquire(clk, Tracked(tr), Tracked(gh))", 1),
             ("R3",),
             ("addarg", ["call"], TR, 1),
             ("R10e", 1),
